@@ -10,6 +10,7 @@ from __future__ import annotations
 
 from abc import ABC
 from collections.abc import Mapping
+from dataclasses import dataclass
 from typing import TypeAlias
 
 from xdsl.dialects.builtin import (
@@ -86,6 +87,7 @@ class DataLayoutEntryAttr(ParametrizedAttribute):
             raise VerifyException("empty string as DLTI key is not allowed")
 
 
+@dataclass(frozen=True, init=False)
 class DLTIEntryMap(ParametrizedAttribute, ABC):
     """
     Many DLTI dialect operations contain arrays of DataLayoutEntryInterface,
